@@ -86,9 +86,9 @@ fn main() {
             std::process::exit(0);
         }));
     }
-    if matches!(id.as_str(), "C01" | "C07" | "C08" | "C09") {
-        start_watchdog(rep, "hang", 20);
-    }
+    // every call into the subject is bracketed (common::guarded / guarded_watch): one that does not return within
+    // 20 s is a violation with the case that was running, not a wall-cap machinery failure
+    start_watchdog(rep, "hang", 20);
     if let Some(p) = replay {
         let text = std::fs::read_to_string(&p).expect("replay file");
         let v: serde_json::Value = serde_json::from_str(&text).expect("replay json");
